@@ -31,3 +31,10 @@ pub proof fn lemma_detection_agrees(bytes: Seq<u8>, from_reader: bool, from_slic
     ensures from_reader == from_slice
 {
 }
+/// the typed constructors: the decoded map if it is of the requested kind, an error for any other kind or a decoding error
+pub open spec fn typed_post<T>(decoded: Result<DecodedMap>, pick: spec_fn(DecodedMap) -> Option<T>, res: Result<T>) -> bool {
+    match decoded { Ok(m) => match pick(m) { Some(x) => res == Ok::<T, Error>(x), None => res is Err }, Err(_) => res is Err }
+}
+pub open spec fn pick_regular(m: DecodedMap) -> Option<SourceMap> { match m { DecodedMap::Regular(sm) => Some(sm), _ => None } }
+pub open spec fn pick_index(m: DecodedMap) -> Option<SourceMapIndex> { match m { DecodedMap::Index(x) => Some(x), _ => None } }
+pub open spec fn pick_hermes(m: DecodedMap) -> Option<SourceMapHermes> { match m { DecodedMap::Hermes(x) => Some(x), _ => None } }
